@@ -8,6 +8,7 @@ pub fn run(id: &str, tier: &str, seed: u64) -> Result<String, String> {
         n if n.starts_with("try-") => codec_try(&n[4..]),
         "cram-codecs-roundtrip" => cram_codecs_roundtrip(tier, seed, None),
         "bcf-roundtrip" => bcf_roundtrip(tier),
+        "bam-roundtrip" => bam_roundtrip(tier),
         "cram-decoders-hostile" => cram_decoders_hostile(tier, seed),
         n if n.starts_with("file-") && n.contains(':') => { let (t, h) = n[5..].split_once(':').unwrap(); let x: Vec<u8> = (0..h.len() / 2).map(|i| u8::from_str_radix(&h[2 * i..2 * i + 2], 16).unwrap()).collect(); let ts = crate::hostile::targets(); let t = ts.iter().find(|k| k.name == t).ok_or("unknown target")?; (t.run)(&x); Ok("\"ran\":1".into()) }
         "file-mutations" => crate::hostile::parent(tier, None),
@@ -349,5 +350,107 @@ fn bcf_roundtrip(tier: &str) -> Result<String, String> {
     // vacuity guard: every kind must have records that actually went through the writer and the reader
     for (k, (okc, _)) in &per_kind { if *okc == 0 && k != "genotype-large-allele" { return Err(format!("UNDECIDED: no record of kind {k} was accepted by the writer — the harness would be vacuous")); } }
     if fails.is_empty() { Ok(format!("\"cases\":{cases},\"refused_by_writer\":{refused},\"round_tripped_per_kind\":{{{}}}", per_kind.iter().map(|(k, (a, b))| format!("\"{k}\":[{a},{b}]")).collect::<Vec<_>>().join(","))) }
+    else { Err(format!("FAILURES\n{}", fails.values().cloned().collect::<Vec<_>>().join("\n"))) }
+}
+
+// ---------------------------------------------------------------------------------------------------------------------
+// C05 BOUNDED-NATIVE stand-in for the orchestration no contract reaches (encoder::encode / decoder::decode over the record
+// traits, writer/reader buffer reuse, the CG placeholder): SAM text -> RecordBuf -> ONE bam::io::Writer (records the writer
+// must refuse are interleaved) -> bam::io::Reader, read three ways — read_record_buf into ONE reused RecordBuf, read_record
+// (lazy) converted with try_from_alignment_record, and field by field through the lazy accessors — must give back the
+// accepted records, in order, equal as RecordBuf values.  Never counted as proved.
+fn bam_roundtrip(tier: &str) -> Result<String, String> {
+    use noodles_sam as sam;
+    use sam::alignment::io::Write as _;
+    use sam::alignment::Record as _;
+    use std::collections::BTreeMap;
+    let header: sam::Header = "@HD\tVN:1.6\tSO:unsorted\n@SQ\tSN:sq0\tLN:2147483647\n@SQ\tSN:sq1\tLN:1000\n@RG\tID:rg0\n".parse().map_err(|e| format!("header: {e}"))?;
+    let mut lines: Vec<(String, String)> = Vec::new();
+    let seq = |n: usize| -> String { (0..n).map(|i| b"ACGTNRYKMSWBDHV="[i % 16] as char).collect() };
+    let qual = |n: usize| -> String { (0..n).map(|i| (33 + (i * 7) % 94) as u8 as char).collect() };
+    let rec = |name: &str, flag: u16, rname: &str, pos: u64, mapq: u8, cigar: &str, rnext: &str, pnext: u64, tlen: i64, s: &str, q: &str, data: &str| format!("{name}\t{flag}\t{rname}\t{pos}\t{mapq}\t{cigar}\t{rnext}\t{pnext}\t{tlen}\t{s}\t{q}{}{data}\n", if data.is_empty() { "" } else { "\t" });
+    // names, flags, positions, mapq, template lengths
+    for name in ["r", "*", &"n".repeat(254), "a:b/1"] { lines.push(("core".into(), rec(name, 0, "sq0", 1, 0, "4M", "*", 0, 0, "ACGT", "IIII", ""))); }
+    for flag in [0u16, 1, 4, 16, 0x63, 0x93, 0x800, 0xfff] { lines.push(("core".into(), rec("r", flag, "sq0", 7, 30, "4M", "=", 100, 97, "ACGT", "IIII", ""))); }
+    for pos in [1u64, 2, 16384, 16385, 536870911, 536870912, 536870913, 2147483646, 2147483647] { lines.push(("core".into(), rec("r", 0, "sq0", pos, 255, "1M", "sq1", pos.min(1000), -5, "A", "I", ""))); }
+    for tlen in [-2147483648i64, -1, 0, 1, 2147483647] { lines.push(("core".into(), rec("r", 0, "sq0", 5, 1, "2M", "=", 5, tlen, "AC", "II", ""))); }
+    lines.push(("core".into(), rec("u", 4, "*", 0, 255, "*", "*", 0, 0, "*", "*", "")));
+    lines.push(("core".into(), rec("u", 4, "sq1", 9, 0, "*", "*", 0, 0, "ACG", "*", "")));
+    // sequences / qualities: odd and even lengths, missing qualities after present ones (buffer reuse), all base codes
+    for n in [1usize, 2, 3, 15, 16, 17, 255, 256] { lines.push(("seq".into(), rec("s", 0, "sq0", 3, 9, &format!("{n}M"), "*", 0, 0, &seq(n), &qual(n), ""))); lines.push(("seq".into(), rec("s", 0, "sq0", 3, 9, &format!("{n}M"), "*", 0, 0, &seq(n), "*", ""))); lines.push(("seq".into(), rec("s", 0, "sq0", 3, 9, "*", "*", 0, 0, "*", "*", ""))); }
+    // cigar: every op kind, long lengths on ops that consume no read base, zero-read-length cigars
+    lines.push(("cigar".into(), rec("c", 0, "sq0", 10, 9, "1H2S3M1I2M4D1M5N1M1P1=1X2S3H", "*", 0, 0, &seq(14), &qual(14), "")));
+    for l in [1u32, 15, 16, 255, 65535, 65536, 268435455] { lines.push(("cigar".into(), rec("c", 0, "sq0", 10, 9, &format!("1M{l}D1M{l}N1M"), "*", 0, 0, "ACG", "III", ""))); }
+    // more than 65535 operations: the CG placeholder
+    for n in [65536usize, 65535, 65537] { let c: String = (0..n).map(|i| if i % 2 == 0 { "1M" } else { "1I" }).collect(); lines.push(("cigar-overflow".into(), rec("g", 0, "sq0", 10, 9, &c, "*", 0, 0, &seq(n), &qual(n), "NM:i:1"))); if tier != "thorough" { break; } }
+    // data fields
+    for v in [-2147483648i64, -32769, -32768, -129, -128, -1, 0, 127, 128, 255, 256, 32767, 32768, 65535, 65536, 2147483647, 2147483648, 4294967295] { lines.push(("data".into(), rec("d", 0, "sq0", 1, 1, "1M", "*", 0, 0, "A", "I", &format!("XI:i:{v}\tRG:Z:rg0")))); }
+    lines.push(("data".into(), rec("d", 0, "sq0", 1, 1, "1M", "*", 0, 0, "A", "I", "XA:A:!\tXZ:Z:\tXY:Z:a b\tXH:H:00FF\tXF:f:-1.5\tXB:B:c,-128,127\tXC:B:C,0,255\tXS:B:s,-32768,32767\tXT:B:S,0,65535\tXJ:B:i,-2147483648,2147483647\tXK:B:I,0,4294967295\tXG:B:f,0.25,-8\tXE:B:C")));
+    let mut rd = sam::io::Reader::new(&b""[..]); let _ = &mut rd;
+    // parse every line with the SAM reader; keep what it accepts
+    let mut recs: Vec<(String, sam::alignment::RecordBuf)> = Vec::new();
+    for (kind, line) in &lines { let mut r = sam::io::Reader::new(line.as_bytes()); let mut b = sam::alignment::RecordBuf::default(); if let Ok(n) = r.read_record_buf(&header, &mut b) { if n > 0 { recs.push((kind.clone(), b)); } } }
+    // records the BAM writer must refuse (they are interleaved; a refusal must not disturb what follows)
+    let bad_records: Vec<sam::alignment::RecordBuf> = {
+        use sam::alignment::record_buf::{QualityScores, Sequence};
+        let mut v = Vec::new();
+        v.push(sam::alignment::RecordBuf::builder().set_name("bad-qual-len").set_sequence(Sequence::from(b"ACGT".to_vec())).set_quality_scores(QualityScores::from(vec![30, 30])).build());
+        v.push(sam::alignment::RecordBuf::builder().set_name("bad-ref").set_reference_sequence_id(7).build());
+        v.push(sam::alignment::RecordBuf::builder().set_name(&"x".repeat(255)[..]).build());
+        v
+    };
+    let mut fails: BTreeMap<String, String> = BTreeMap::new();
+    let mut w = noodles_bam::io::Writer::from(Vec::new());
+    w.write_header(&header).map_err(|e| format!("write_header: {e}"))?;
+    let mut accepted: Vec<(String, sam::alignment::RecordBuf)> = Vec::new();
+    let (mut refused, mut bad_refused) = (0u64, 0u64);
+    std::panic::set_hook(Box::new(|_| {}));
+    for (i, (kind, r)) in recs.iter().enumerate() {
+        if i % 5 == 2 { let b = &bad_records[(i / 5) % bad_records.len()]; match std::panic::catch_unwind(std::panic::AssertUnwindSafe(|| w.write_alignment_record(&header, b))) { Ok(Err(_)) => bad_refused += 1, Ok(Ok(())) => { fails.entry("writer accepts an invalid record".into()).or_insert_with(|| format!("bam round trip: the writer ACCEPTS the invalid record {:?}", b.name())); accepted.push(("bad".into(), b.clone())); } Err(_) => { fails.entry("writer panics".into()).or_insert_with(|| format!("bam round trip: the writer PANICS on the invalid record {:?}", b.name())); } } }
+        match std::panic::catch_unwind(std::panic::AssertUnwindSafe(|| w.write_alignment_record(&header, r))) {
+            Ok(Ok(())) => accepted.push((kind.clone(), r.clone())),
+            Ok(Err(_)) => refused += 1,
+            Err(_) => { fails.entry(format!("writer panics [{kind}]")).or_insert_with(|| format!("bam round trip [{kind}]: the writer PANICS on record {:?} flags {:?} cigar ops {}", r.name(), r.flags(), r.cigar().as_ref().len())); }
+        }
+    }
+    let data = w.get_ref().clone();
+    let short = |r: &sam::alignment::RecordBuf| format!("name {:?} pos {:?} cigar ops {} seq len {} data {:?}", r.name().map(|n| String::from_utf8_lossy(&n[..n.len().min(12)]).to_string()), r.alignment_start(), r.cigar().as_ref().len(), r.sequence().len(), r.data().iter().map(|(t, _)| format!("{t:?}")).collect::<Vec<_>>());
+    // (a) one reused RecordBuf
+    let ra = std::panic::catch_unwind(|| -> Result<Vec<sam::alignment::RecordBuf>, String> {
+        let mut rd = noodles_bam::io::Reader::from(&data[..]); let h = rd.read_header().map_err(|e| format!("read_header: {e}"))?;
+        let mut out = Vec::new(); let mut b = sam::alignment::RecordBuf::default();
+        loop { match rd.read_record_buf(&h, &mut b) { Ok(0) => break, Ok(_) => out.push(b.clone()), Err(e) => return Err(format!("read_record_buf fails at record {}: {e}", out.len())) } }
+        Ok(out)
+    });
+    // (b) lazy records converted, (c) lazy accessors
+    let rb = std::panic::catch_unwind(|| -> Result<Vec<sam::alignment::RecordBuf>, String> {
+        let mut rd = noodles_bam::io::Reader::from(&data[..]); let h = rd.read_header().map_err(|e| format!("read_header: {e}"))?;
+        let mut out = Vec::new(); let mut r = noodles_bam::Record::default();
+        loop { match rd.read_record(&mut r) { Ok(0) => break, Ok(_) => { let b = sam::alignment::RecordBuf::try_from_alignment_record(&h, &r).map_err(|e| format!("lazy record {} does not convert: {e}", out.len()))?;
+            // lazy accessors agree with the eager decode
+            if r.flags() != b.flags() || r.alignment_start().transpose().ok().flatten() != b.alignment_start() || r.sequence().len() != b.sequence().len() || r.quality_scores().as_ref().len() != b.quality_scores().as_ref().len() { return Err(format!("lazy accessors of record {} disagree with its eager decode", out.len())); }
+            out.push(b) } Err(e) => return Err(format!("read_record fails at record {}: {e}", out.len())) } }
+        Ok(out)
+    });
+    let _ = std::panic::take_hook();
+    for (how, res) in [("read_record_buf (reused RecordBuf)", ra), ("read_record + try_from_alignment_record", rb)] {
+        match res {
+            Err(_) => { fails.entry(format!("{how} panics")).or_insert_with(|| format!("bam round trip: {how} PANICS on the writer's output")); }
+            Ok(Err(e)) => { fails.entry(format!("{how} fails")).or_insert_with(|| format!("bam round trip: {how}: {e}")); }
+            Ok(Ok(out)) => {
+                if out.len() != accepted.len() { fails.entry(format!("{how} count")).or_insert_with(|| format!("bam round trip: {how} returns {} records, {} were written", out.len(), accepted.len())); }
+                for (i, ((kind, a), b)) in accepted.iter().zip(out.iter()).enumerate() { if a != b {
+                    let mut d = Vec::new();
+                    if a.name() != b.name() { d.push("name"); } if a.flags() != b.flags() { d.push("flags"); } if a.reference_sequence_id() != b.reference_sequence_id() { d.push("reference"); }
+                    if a.alignment_start() != b.alignment_start() { d.push("position"); } if a.mapping_quality() != b.mapping_quality() { d.push("mapq"); } if a.cigar() != b.cigar() { d.push("cigar"); }
+                    if a.mate_reference_sequence_id() != b.mate_reference_sequence_id() || a.mate_alignment_start() != b.mate_alignment_start() || a.template_length() != b.template_length() { d.push("mate fields"); }
+                    if a.sequence() != b.sequence() { d.push("sequence"); } if a.quality_scores() != b.quality_scores() { d.push("quality scores"); } if a.data() != b.data() { d.push("data"); }
+                    let d = d.join(", ");
+                    fails.entry(format!("{how} differs [{kind}] {d}")).or_insert_with(|| format!("bam round trip [{kind}]: {how} reads back a different record (differs in: {d}); first such record #{i}: wrote {} / read {}", short(a), short(b))); } }
+            }
+        }
+    }
+    if accepted.len() < 40 { return Err("UNDECIDED: fewer than 40 records were accepted by the writer — the harness would be vacuous".into()); }
+    if fails.is_empty() { Ok(format!("\"records_written\":{},\"refused_by_writer\":{refused},\"invalid_records_refused\":{bad_refused}", accepted.len())) }
     else { Err(format!("FAILURES\n{}", fails.values().cloned().collect::<Vec<_>>().join("\n"))) }
 }
